@@ -52,7 +52,7 @@ CQ_STUBS = [
 PROPS = {}
 
 # properties whose checks are registered in MANIFEST.json (measured below the tier caps)
-REGISTERED = ["C01", "C02", "C03", "C10", "C11", "C15", "C16"]
+REGISTERED = ["C01", "C02", "C03", "C05", "C08", "C09", "C10", "C11", "C14", "C15", "C16"]
 
 NOT_APPLICABLE = [
     dict(property_id="C04", reason="2-run hyperproperty over the whole runtime incl. tokio scheduler, rand ChaCha (cpuid inline asm) and process-global counters; no kernel function decides it and whole-run encodings do not fit CBMC (a 2-event run is already >100k SSA steps)"),
@@ -299,3 +299,64 @@ PROPS["C05"] = dict(
 # --------------------------------------------------------------------------- scratch probes (never registered)
 PROPS["P00"] = dict(crate="des-cqueue", mounts=CQ_MOUNTS + [dict(file="des-cqueue/src/stable/mod.rs", decl="mod verif_probe", harness="probe.rs")], prepend=CQ_PREPEND,
                     level_text="probe", harnesses=[H("stable::verif_probe", "pr_vec_cond_push"), H("stable::verif_probe", "pr_vec_cond_push_stub", unwindset=[REALLOC])])
+
+
+# --------------------------------------------------------------------------- net runtime kernels: C14, C09, C12
+NR_MOUNTS = CQ_MOUNTS + [dict(file="des/src/net/runtime/mod.rs", decl="mod verif_nr", harness="nr.rs"),
+                         dict(file="des/src/net/module/mod.rs", decl="pub(crate) mod verif_mod", harness="net_module_stub.rs")]
+NR_STUBS = ["Harness::exec -> call the closure directly (real body: catch_unwind + tokio LocalSet::block_on; Kani cannot compile catch_unwind) - panics inside callbacks and task polling after the callback are not encoded",
+            "AsyncCoreExt::new -> Rt::Shutdown without a tokio Builder (FFI getrandom)", "tracing::new_scope -> constant token (real body reaches mpsc send: kani-compiler ICE)",
+            "Arc::drop_slow -> no-op (cyclic drop glue; destruction not claimed)", "standalone ModuleContext, recording ProcessingElements and Module"]
+MNR = "net::runtime::verif_nr"
+PROPS["C14"] = dict(
+    crate="des", mounts=NR_MOUNTS, prepend=DES_PREPEND,
+    functions=["des::net::processing::Processor::{new,incoming_upstream,incoming_downstream}", "ProcessingStack::{from,append}", "ModuleRef::{handle_message,at_sim_start,async_wakeup,upgrade_dummy}", "ModuleContext::standalone"],
+    level_text="Bounded model checking of the real Processor / ModuleRef entry points with recording elements: for stacks of 0..3 elements and every assignment of pass/consume behaviour the solver shows event_start once per element in stack order, incoming in order until the first consumer, the handler iff nothing consumed, event_end once per element in reverse order; two consecutive events never interleave; start-up-stage and wake-up events are bracketed the same way. Emission order of sends during an event is outside (global buffer + run loop).",
+    claim="The expected call log is computed in the harness from the symbolic consume flags and compared entry by entry with the recorded log.",
+    assumptions=NR_STUBS, outside=["stacks deeper than 3", "emission order of messages sent during the event (buf_process)", "Module::stack() supplied per module through SimBuilder", "at_sim_end (tokio join loop)"],
+    harnesses=[
+        H(MNR, "c14_message_stack0", bounds="empty stack; one message event"),
+        H(MNR, "c14_message_stack1", bounds="1 element, consume flag symbolic"),
+        H(MNR, "c14_message_stack2", bounds="2 elements, consume flags symbolic"),
+        H(MNR, "c14_message_stack3", bounds="3 elements, consume flags symbolic"),
+        H(MNR, "c14_two_events_stack2", bounds="2 elements, two consecutive message events"),
+        H(MNR, "c14_other_events_stack2", bounds="2 pass-through elements; event kind symbolic in {start-up stage 0/1, wake-up, message}"),
+    ],
+)
+PROPS["C09"] = dict(
+    crate="des", mounts=NR_MOUNTS, prepend=DES_PREPEND,
+    functions=["ModuleRef::{handle_message,async_wakeup,module_restart,at_sim_start,num_sim_start_stages}", "Processor::{incoming_upstream,incoming_downstream}"],
+    level_text="Claimed for the synchronous kernels only (bounded model checking): with a symbolic active flag, handle_message and async_wakeup run the handler and processing elements iff the module is active and leave the flag unchanged; module_restart sets the module active and runs each declared start-up stage (symbolic count <= 3) exactly once in ascending order, each bracketed by the processing stack. Cancellation of tokio tasks and their timers, dropping of in-transit messages at gates, the shutdown flag handling in buf_process and repeated cycles over a run are NOT decided here (tokio runtime / global context outside the encoding).",
+    claim="Recorded call log compared with the specification.",
+    assumptions=NR_STUBS, outside=["tokio task cancellation on shutdown", "buf_process shutdown branch (global buffers, Runtime<Sim<A>>)", "messages in transit across dispatches", "restart timing (ModuleRestartEvent scheduling)"],
+    harnesses=[
+        H(MNR, "c09_inactive_ignores_events_stack1", bounds="1 element; active flag symbolic; event kind symbolic {message, wake-up}"),
+        H(MNR, "c09_inactive_ignores_events_stack2", bounds="2 elements; active flag symbolic; event kind symbolic"),
+        H(MNR, "c09_restart_runs_stages_once", bounds="stage count symbolic 0..3; 1 element"),
+    ],
+)
+
+
+# --------------------------------------------------------------------------- C08 gates (+ C09 transit)
+G_MOUNTS = NR_MOUNTS + [dict(file="des/src/net/runtime/mod.rs", decl="mod verif_gates", harness="gates.rs")]
+MG = "net::runtime::verif_gates"
+PROPS["C08"] = dict(
+    crate="des", mounts=G_MOUNTS, prepend=DES_PREPEND,
+    functions=["des::net::gate::Gate::{new,connect,kind,path_iter,next_gate,path_end,owner}", "Connection::{new,new_unchecked,next_hop}", "Connections::{len,put}", "MessageExitingConnection::handle_with_sink (channel-free walk)"],
+    level_text="Bounded model checking of the real gate code: 2-gate instance with symbolic orientation and a symbolic repeated/reversed duplicate connect (idempotent, symmetric, one peer each); 3- and 4-gate chains built by the connect calls in several fixed orders (one harness each, incl. two chains joined at their ends) with symbolic orientation of every call: ends are Endpoint, middle is Transit, the walk from either end enumerates every hop in order and is the exact mirror image of the other; a message walked through a channel-free chain across two modules is delivered exactly once, at the send time, to the module owning the far end, with the final gate recorded. Per-hop channel delays are C07; chains longer than 3 gates, clusters and the send API front end are outside.",
+    claim="Oracles use only the public gate API (kind, next_gate, path_end, path_iter) and the event pushed into a Vec sink.",
+    assumptions=NR_STUBS[1:] + ["field sensitivity 4096 (heap objects > 64 B are tracked field-wise)", "gates on standalone modules; no channels on the hops"],
+    outside=["chains longer than 4 gates", "gate clusters", "channels on hops (C07 decides one hop)", "send/send_at API front end (global context)", "arrival-time sums over several dispatches"],
+    harnesses=[
+        H(MG, "c08_chain2_symmetric_idempotent", fs=4096, bounds="2 gates; orientation symbolic; duplicate call symbolic {none, same, reversed}"),
+        H(MG, "c08_chain3_order_ab_bc", fs=4096, mem=16, bounds="3 gates; connect(a,b) then connect(b,c); orientation of each call symbolic"),
+        H(MG, "c08_chain3_order_bc_ab", fs=4096, mem=16, bounds="3 gates; connect(b,c) then connect(a,b); orientation of each call symbolic"),
+        H(MG, "c08_chain4_order_forward", fs=4096, mem=16, bounds="4 gates; connect ab, bc, cd; orientation of each call symbolic"),
+        H(MG, "c08_chain4_order_backward", fs=4096, mem=16, bounds="4 gates; connect cd, bc, ab; orientations symbolic"),
+        H(MG, "c08_chain4_join_two_chains", fs=4096, mem=16, bounds="4 gates; connect ab, cd, then bc (two chains joined at their ends); orientations symbolic"),
+        H(MG, "c08_walk_and_c09_transit", fs=4096, mem=16, bounds="2 modules, 3 gates, orientations symbolic, active flags symbolic, now<=5ns; handle_with_sink"),
+    ],
+)
+PROPS["C09"]["mounts"] = G_MOUNTS
+PROPS["C09"]["harnesses"].append(H(MG, "c08_walk_and_c09_transit", fs=4096, mem=16, bounds="2 modules (transit T, receiver B), 3 gates; active flags symbolic; message at a gate of T is dropped iff T is shut down"))
+PROPS["C09"]["functions"].append("MessageExitingConnection::handle_with_sink (inactive-owner drop)")
